@@ -45,11 +45,17 @@ def r2c_case(draw):
     rank = draw(st.integers(1, 3))
     axis = draw(st.integers(-rank, rank - 1))
     N = draw(st.one_of(st.integers(0, 130), st.integers(0, 12), st.sampled_from([6, 10, 126, 127, 128, 129, 130, 2, 1, 0, 3, 5, 62, 66])))
-    shape = [draw(st.integers(1, 3)) for _ in range(rank)]
+    shape = [draw(st.sampled_from([1, 2, 3, 1, 2, 3, 1, 2, 3, 0])) for _ in range(rank)]  # (another axis may be empty)
     shape[axis] = N
     dtype = draw(st.sampled_from(DTYPES))
     kind = draw(st.sampled_from(["noise", "noise", "tone", "impulse", "const"]))
-    return {"shape": shape, "axis": axis, "dtype": dtype, "kind": kind, "seed": draw(st.integers(0, 2**31 - 1)),
+    # every line along the axis is converted on its own: lines of very different amplitude side by side (decimal exponents per line)
+    ncol = int(np.prod([d for i, d in enumerate(shape) if i != axis % rank]))
+    colscale = None
+    if dtype in ("f4", "f8") and ncol >= 2 and draw(st.integers(0, 3)) == 0:
+        lo, hi = (-20, 25) if dtype == "f4" else (-150, 150)
+        colscale = [draw(st.integers(lo, hi)) for _ in range(ncol)]
+    return {"shape": shape, "axis": axis, "dtype": dtype, "kind": kind, "seed": draw(st.integers(0, 2**31 - 1)), "colscale": colscale,
             "w": draw(st.integers(0, max(0, N // 2))), "a": draw(st.integers(-48, 48)) / 16, "b": draw(st.integers(-48, 48)) / 16}
 
 
@@ -75,6 +81,10 @@ def mk(case, seed_off=0):
         return x > 0
     if np.issubdtype(dt, np.integer):
         x = np.clip(np.rint(x), 0 if dt == np.uint8 else -100, 100)
+    cs = case.get("colscale")
+    if cs and x.size:
+        other = [d if i != axis % len(shape) else 1 for i, d in enumerate(shape)]
+        x = x * (10.0 ** np.array(cs, dtype=np.float64)).reshape(other)
     return x.astype(dt)
 
 
@@ -99,8 +109,19 @@ def run_r2c(case, stt):
     if x.dtype == np.float16:
         eps = 6e-8  # scipy.fft computes half-precision input in single precision (the result is still stored as complex128)
     tol = 16 * eps * (1 + math.log2(max(N, 2))) * math.sqrt(max(N, 1)) * max(scale, 1e-300)
-    err = float(np.max(np.abs(y - ref))) if y.size else 0.0
-    check(err <= tol, "differs from the analytic-baseband definition by {:.3g} (tol {:.3g}; N={}, axis={}, dtype={})", err, tol, N, axis, x.dtype)
+    if y.size:
+        # line by line (each line along the axis is its own conversion): the error is measured against that line's own amplitude
+        yl = np.moveaxis(np.asarray(y), axis, 0).reshape(y.shape[axis], -1)
+        rl = np.moveaxis(ref, axis, 0).reshape(y.shape[axis], -1)
+        xl = np.moveaxis(x.astype(np.float64), axis, 0).reshape(N, -1)
+        for j in range(yl.shape[1]):
+            sj = float(np.max(np.abs(xl[:, j])))
+            tj = 16 * eps * (1 + math.log2(max(N, 2))) * math.sqrt(max(N, 1)) * max(sj, 1e-300)
+            ej = float(np.max(np.abs(yl[:, j] - rl[:, j])))
+            check(ej <= tj, "line {} (amplitude {:.3g}) differs from the analytic-baseband definition by {:.3g} (tol {:.3g}; N={}, axis={}, dtype={}, "
+                  "largest amplitude in the array {:.3g})", j, sj, ej, tj, N, axis, x.dtype, scale)
+    if case.get("colscale"):
+        stt.label("lines_of_different_amplitude")
     if y.size:
         m = np.arange(y.shape[axis]).reshape([y.shape[axis] if i == (axis % x.ndim) else 1 for i in range(x.ndim)])
         sl = [slice(None)] * x.ndim
@@ -119,13 +140,14 @@ def run_r2c(case, stt):
         e3 = float(np.max(np.abs(yc - (complex(a) * y.astype(np.complex128) + complex(b) * y2.astype(np.complex128)))))
         check(e3 <= tol2, "not linear: f(ax+by) - a f(x) - b f(y) = {:.3g} (tol {:.3g})", e3, tol2)
     # tone at w -> tone at w - N/4
-    if case["kind"] == "tone" and N >= 4 and 0 < case["w"] < N / 2 and x.dtype in (np.float32, np.float64):
+    if case["kind"] == "tone" and N >= 4 and 0 < case["w"] < N / 2 and x.dtype in (np.float32, np.float64) and y.size:
         M = y.shape[axis]
         mm = np.arange(M)
-        exp = 5 * np.exp(1j * (2 * np.pi * (case["w"] - N / 4) * (2 * mm) / N + 0.3))
+        amp0 = 10.0 ** case["colscale"][0] if case.get("colscale") else 1.0
+        exp = 5 * amp0 * np.exp(1j * (2 * np.pi * (case["w"] - N / 4) * (2 * mm) / N + 0.3))
         got = np.moveaxis(y, axis, 0).reshape(M, -1)[:, 0]
         e4 = float(np.max(np.abs(got - exp)))
-        check(e4 <= tol * 4 + 1e-12, "a real tone at {} cycles per {} samples did not become a complex tone at w - N/4 (err {:.3g})", case["w"], N, e4)
+        check(e4 <= tol * 4 + 1e-12 * amp0, "a real tone at {} cycles per {} samples did not become a complex tone at w - N/4 (err {:.3g})", case["w"], N, e4)
     must_raise("complex input", lambda: pb.utils.real_to_complex(x.astype(np.complex64), axis=axis), (ValueError,))
     stt.nt(N >= 3 and ((axis % x.ndim) != 0 or N % 2 == 1 or case["kind"] != "tone"))
     stt.label("N%%4=%d" % (N % 4))
